@@ -2788,3 +2788,79 @@ def rule_T14b(ctx):
             r.finding(f["path"], "conditional-sort", loc(bl[w[-1]]["term"]), "%s sorts the association cells only on some of its paths that return Ok: the sort also moves the keyed cells in front of the holes left by un-keyed items, so on the path that skips it (a single key that is not the first item) the header promises a key the binary search meets a hole for - the look-up fails for good" % last(f["path"]))
     r.floor("BasicGarnishData functions that sort association cells", n, 1)
     return r
+
+
+# ---------------------------------------------------------------------------------------------------------------------
+# T21  both children are scheduled.  A builder handler that dispatches on the pair of child links `(get_left(), get_right())`
+#      may not hide a link behind a wildcard in an arm that schedules the other one: when both are present the hidden subtree
+#      is never scheduled - it gets no instruction and no metadata record although parse and build return Ok.
+def t21_sites(f):
+    body = Body(f)
+    out = []
+    def link_kind(e):
+        for o in [peel(e)] + [o_ for o_ in body.origins(e) if isinstance(o_, dict)]:
+            if o.get("k") == "MethodCall" and o.get("m") in ("get_left", "get_right"):
+                return o["m"]
+        return None
+    for m in walk(f["hir"]):
+        if m.get("k") != "Match" or m.get("src") not in (None, "Normal"):
+            continue
+        sc = peel(m.get("scrut") or {})
+        if sc.get("k") != "Tup" or len(sc.get("es", [])) != 2:
+            continue
+        kinds = [link_kind(e) for e in sc["es"]]
+        if set(kinds) != {"get_left", "get_right"}:
+            continue
+        hidden = []
+        for arm in m["arms"]:
+            p = arm["pat"]
+            while p.get("k") in ("Ref", "Deref"):
+                p = p["pat"]
+            if p.get("k") != "Tuple" or len(p.get("pats", [])) != 2:
+                continue
+            comps = []
+            for q in p["pats"]:
+                while q.get("k") in ("Ref", "Deref"):
+                    q = q["pat"]
+                if q.get("k") == "Wild" or (q.get("k") == "Binding" and not q.get("sub")):
+                    comps.append("any")
+                elif q.get("k") == "TupleStruct" and last(q.get("def") or "") == "Some":
+                    comps.append("some")
+                else:
+                    comps.append("other")
+            if "some" in comps and "any" in comps:
+                # a plain binding that is then matched / scheduled in the body is fine; a wildcard or an unused binding hides the link
+                k_ = comps.index("any")
+                q = p["pats"][k_]
+                while q.get("k") in ("Ref", "Deref"):
+                    q = q["pat"]
+                used = q.get("k") == "Binding" and any(x.get("k") == "Path" and x.get("lid") == q.get("lid") for x in walk(arm["body"]))
+                if not used:
+                    hidden.append((loc(arm["pat"]), kinds[k_]))
+        out.append((loc(m), hidden))
+    return out
+
+
+def rule_T21(ctx):
+    F = ctx.F
+    r = RuleResult("T21", "both children are scheduled: a builder handler that dispatches on the pair of child links never hides one link behind a wildcard in an arm that schedules the other")
+    n = 0
+    for f in sorted(F.fns.values(), key=lambda f: f["path"]):
+        if f["crate"] != "garnish_lang_compiler" or "::build::" not in f["path"]:
+            continue
+        for where, hidden in t21_sites(f):
+            n += 1
+            r.examine((f["path"], where), True, {"fn": last(f["path"].split("::{closure")[0]), "where": where, "hidden_links": [h[1] for h in hidden]})
+            for k_, (w, kind) in enumerate(hidden):
+                r.finding(f["path"].split("::{closure")[0], "child-link-hidden:%s#%d" % (kind, k_ + 1), w, "the arm at %s schedules one child and matches the other link (%s) with a wildcard: when both children are present that subtree is never scheduled - it gets no instruction and no metadata record (`[a]5[b]` loses `[b]`)" % (w, kind))
+    r.analysed["pair_dispatches_on_child_links"] = n
+    for f in F.fns_in("gfixture::round3::t21::"):
+        if f["kind"] == "Closure" or not f.get("name", "").startswith(("ctl_", "ok_")):
+            continue
+        ss = t21_sites(f)
+        bad = any(h for _w, h in ss)
+        if f["name"].startswith("ctl_"):
+            r.control(f["name"], bad)
+        else:
+            r.neg_control(f["name"], bool(ss) and not bad)
+    return r
